@@ -536,7 +536,7 @@ func main() {
 		Assume: []string{
 			"supplements and ancestor timestamps are the caller's trusted inputs: variants get the supplement the store model builds for them",
 			"only wire-representable objects are validated: a variant transaction is first encoded and decoded with its own codec and the DECODED object is validated (objects whose Encode panics or whose bytes the decoder refuses are counted as decoder cases only)",
-			"Encode* of programmer-error values, gateway V2BlockOutline.Complete and RHP Validate() methods are not judged",
+			"Encode* of programmer-error values (including outlining and encoding a block the sender would not have accepted) and RHP Validate() methods are not judged here (C17 judges the RHP money paths)",
 			"a sub-worker killed by the watchdog is inconclusive, not a violation",
 			"allocation allowance per input byte: 1024 for binary and text entry points; 4096 for JSON documents (encoding/json's own linear amplification of arrays of empty objects into large element structs was measured at ~1200x)",
 		},
